@@ -99,7 +99,7 @@ type owner struct {
 	chainLatest  int
 	lastUseStart time.Time
 	lastKind     opKind   // kind of the last request whose sequence ID the server accepted
-	guard        *request // NFSv4.0: last OPEN sent while the open-owner was unconfirmed
+	guard        *request // NFSv4.0: last OPEN sent on behalf of the open-owner
 	// recreated: the server may have collected the idle open-owner and
 	// created it afresh (unconfirmed) for an OPEN that failed, so that the
 	// reply did not say whether confirmation is needed.
@@ -112,8 +112,9 @@ func (req *request) outstanding() int {
 }
 
 // guarded: with duplicates around, nothing else may be sent on behalf of an
-// open-owner while copies of an OPEN that was sent to it in unconfirmed state
-// are still under way: the server treats any OPEN for an unconfirmed
+// open-owner while copies of an OPEN sent for it are still under way (it may be
+// unconfirmed at the server, known to the client or not, e.g. collected while
+// idle): the server treats any OPEN for an unconfirmed
 // open-owner as a new request (RFC 7530 section 16.18.5), so a late copy would
 // silently replace the state created meanwhile.
 func (o *owner) guarded() bool {
